@@ -17,7 +17,7 @@ import (
 )
 
 type c04Case struct {
-	Kind     string `json:"kind"` // req-rt | resp-rt | req-chunk | resp-chunk | req-enc | resp-enc
+	Kind     string `json:"kind"` // req-rt | resp-rt | req-chunk | resp-chunk | req-enc | resp-enc | req-seq | resp-seq
 	Addr     []byte `json:"addr,omitempty"`
 	OK       bool   `json:"ok,omitempty"`
 	Pad      int    `json:"pad"`
@@ -28,6 +28,12 @@ type c04Case struct {
 	Stream   []byte `json:"stream,omitempty"`              // for *-enc: the raw stream fed to the reader
 	// Bystander: another request frame and another response frame are parsed between any two reads of this stream
 	Bystander bool `json:"other_streams_parsed_between_reads,omitempty"`
+	// for *-seq: the addresses/messages of 2-3 frames read one after the other in the same process,
+	// each on its own stream (frame + Trailing) or, with SameStream, back to back on one stream
+	// (Trailing after the last); Bytewise delivers every stream one byte per read
+	Seq        [][]byte `json:"seq,omitempty"`
+	SameStream bool     `json:"same_stream,omitempty"`
+	Bytewise   bool     `json:"byte_at_a_time,omitempty"`
 }
 
 func c04Content(class, n int) []byte {
@@ -174,8 +180,129 @@ func c04RunInner(c *c04Case) string {
 		}
 	case "req-enc", "resp-enc":
 		return c04Enc(c)
+	case "req-seq", "resp-seq":
+		return c04RunSeq(c)
 	default:
 		return "unknown case kind " + c.Kind
+	}
+	return ""
+}
+
+// c04SeqSpellings is the alphabet of the histories of several frames: spellings that are equal, that
+// have the same length and differ only in letter case (ASCII, hex digits of an IPv6 literal, a
+// two-byte UTF-8 letter), that differ only in bit 0x20 of a non-letter, that have the same length and
+// are unrelated, and that extend one another. The property quantifies over every address/message
+// content: whatever was read before, each frame is read back byte-identical. Added after the
+// independently seeded change C04-13 (ReadTCPRequest returned the previous request's spelling when
+// the address matched it case-insensitively).
+var c04SeqSpellings = []string{
+	"Example.com:443", "example.com:443", "EXAMPLE.COM:443", "example.net:443", "example.com:4430",
+	"[2001:DB8::1]:80", "[2001:db8::1]:80",
+	"caf\u00e9.example:80", "caf\u00c9.example:80",
+	"A@b.example:1", "a`b.example:1",
+}
+
+// c04SeqRelation names how two spellings relate (for the distinct-class shape).
+func c04SeqRelation(a, b []byte) byte {
+	switch {
+	case bytes.Equal(a, b):
+		return 'I'
+	case len(a) != len(b):
+		return 'D'
+	case bytes.EqualFold(a, b):
+		return 'F'
+	}
+	for i := range a {
+		if a[i]|0x20 != b[i]|0x20 {
+			return 'L'
+		}
+	}
+	return 'B'
+}
+
+// c04RunSeq reads the frames of c.Seq one after the other in the same process and judges every one
+// of them with the clauses of the single round trip: value identical, exactly the frame consumed,
+// what follows intact.
+func c04RunSeq(c *c04Case) string {
+	isReq := c.Kind == "req-seq"
+	if isReq {
+		saved := tcpRequestPadding
+		defer func() { tcpRequestPadding = saved }()
+		tcpRequestPadding = padding{Min: c.Pad, Max: c.Pad + 1}
+	} else {
+		saved := tcpResponsePadding
+		defer func() { tcpResponsePadding = saved }()
+		tcpResponsePadding = padding{Min: c.Pad, Max: c.Pad + 1}
+	}
+	status := func(i int) bool { return c.OK == (i%2 == 0) }
+	var bodies [][]byte
+	for i, a := range c.Seq {
+		var w bytes.Buffer
+		if isReq {
+			if err := WriteTCPRequest(&w, string(a)); err != nil {
+				return fmt.Sprintf("frame #%d: write error: %v", i+1, err)
+			}
+			frame := w.Bytes()
+			if len(frame) < 2 || frame[0] != 0x44 || frame[1] != 0x01 {
+				return fmt.Sprintf("frame #%d does not start with varint 0x401", i+1)
+			}
+			bodies = append(bodies, append([]byte(nil), frame[2:]...))
+		} else {
+			if err := WriteTCPResponse(&w, status(i), string(a)); err != nil {
+				return fmt.Sprintf("frame #%d: write error: %v", i+1, err)
+			}
+			bodies = append(bodies, append([]byte(nil), w.Bytes()...))
+		}
+	}
+	var r *enum.ChunkReader
+	end := 0
+	for i, a := range c.Seq {
+		if i == 0 || !c.SameStream {
+			var data []byte
+			if c.SameStream {
+				for _, b := range bodies {
+					data = append(data, b...)
+				}
+			} else {
+				data = append(data, bodies[i]...)
+			}
+			data = append(data, c.Trailing...)
+			data = data[:len(data):len(data)]
+			r = &enum.ChunkReader{Data: data, Err: io.EOF, EOFWithLast: c.EOFLast, Before: c04Bystander(c)}
+			if c.Bytewise {
+				for k := 1; k < len(data); k++ {
+					r.Cuts = append(r.Cuts, k)
+				}
+			}
+			end = 0
+		}
+		end += len(bodies[i])
+		if isReq {
+			got, err := ReadTCPRequest(r)
+			if err != nil {
+				return fmt.Sprintf("frame #%d of the history: read error on a valid frame: %v", i+1, err)
+			}
+			if got != string(a) {
+				return fmt.Sprintf("frame #%d of the history: address differs: wrote %q, read %q", i+1, a, got)
+			}
+		} else {
+			ok, msg, err := ReadTCPResponse(r)
+			if err != nil {
+				return fmt.Sprintf("frame #%d of the history: read error on a valid frame: %v", i+1, err)
+			}
+			if ok != status(i) || msg != string(a) {
+				return fmt.Sprintf("frame #%d of the history: response differs: wrote (%v,%q), read (%v,%q)", i+1, status(i), a, ok, msg)
+			}
+		}
+		if r.Pos != end {
+			return fmt.Sprintf("frame #%d of the history: reader at byte %d, frame ends at byte %d", i+1, r.Pos, end)
+		}
+		if !c.SameStream || i == len(c.Seq)-1 {
+			rest, _ := io.ReadAll(r)
+			if !bytes.Equal(rest, c.Trailing) {
+				return fmt.Sprintf("frame #%d of the history: trailing payload not intact after reading the frame", i+1)
+			}
+		}
 	}
 	return ""
 }
@@ -313,6 +440,15 @@ func c04Shape(c *c04Case, clause string) string {
 		}
 		return fmt.Sprintf("%s|%x|%d|%v", c.Kind, c.Stream[:n], len(c.Stream), clause == "")
 	}
+	if c.Seq != nil {
+		var rel []byte
+		for j := range c.Seq {
+			for i := 0; i < j; i++ {
+				rel = append(rel, c04SeqRelation(c.Seq[i], c.Seq[j]))
+			}
+		}
+		return fmt.Sprintf("%s|%d|%s|%d|%d|%v|%v|%v|%v", c.Kind, len(c.Seq), rel, c.Pad, len(c.Trailing), c.SameStream, c.Bytewise, c.EOFLast, c.Bystander)
+	}
 	return fmt.Sprintf("%s|%d|%d|%d|%d|%v|%v", c.Kind, len(c.Addr), c.Pad, len(c.Trailing), len(c.Cuts), c.Zero, c.EOFLast)
 }
 
@@ -324,6 +460,13 @@ func c04Sig(c *c04Case, clause string) string {
 			n = 12
 		}
 		return fmt.Sprintf("%s/%s/stream=%x..(%d)", c.Kind, clause, c.Stream[:n], len(c.Stream))
+	}
+	if c.Seq != nil {
+		var sp []string
+		for _, a := range c.Seq {
+			sp = append(sp, string(a))
+		}
+		return fmt.Sprintf("%s/%s/seq=%q,pad=%d,trail=%d,same-stream=%v,byte-at-a-time=%v,eof-with-last=%v,bystander=%v", c.Kind, clause, sp, c.Pad, len(c.Trailing), c.SameStream, c.Bytewise, c.EOFLast, c.Bystander)
 	}
 	return fmt.Sprintf("%s/%s/len=%d,pad=%d,trail=%d,cuts=%v,zero=%v,eof-with-last=%v,bystander=%v", c.Kind, clause, len(c.Addr), c.Pad, len(c.Trailing), c.Cuts, c.Zero, c.EOFLast, c.Bystander)
 }
@@ -468,6 +611,44 @@ func c04Enumerate(sh *evidence.Shard) {
 			}
 		}
 	}
+	// (1b) histories: 2 and 3 frames read one after the other in the same process. Every framing case
+	// above reads ONE frame; here every ordered pair and triple over the spelling alphabet is read, each
+	// frame on its own stream or all back to back on one, whole or byte-at-a-time, with and without
+	// payload behind. Added after the independently seeded change C04-13 (ReadTCPRequest interned the
+	// address through a case-insensitive one-entry cache and returned the previous request's spelling).
+	p5 := sh.Part("frame-histories", "enum")
+	p5.Alphabet = map[string]any{"history": "every ordered pair and triple of frames read one after the other in the same process", "spellings": c04SeqSpellings,
+		"kinds": "requests (address) | responses (message, status alternating from ok/error)", "streams": "each frame on its own stream | all frames back to back on one stream",
+		"padding": "tcpRequestPadding/tcpResponsePadding {Min, Max-1}", "trailing_len": []int{0, 3}, "delivery": "one read | byte-at-a-time",
+		"also": "frames without trailing payload once more with the last bytes delivered together with io.EOF, and once more with other streams parsed between any two reads"}
+	for _, kind := range []string{"req-seq", "resp-seq"} {
+		pmin, pmax := tcpRequestPadding.Min, tcpRequestPadding.Max-1
+		if kind == "resp-seq" {
+			pmin, pmax = tcpResponsePadding.Min, tcpResponsePadding.Max-1
+		}
+		ns := len(c04SeqSpellings)
+		for depth, total := 2, ns*ns; depth <= 3; depth, total = depth+1, total*ns {
+			for t := 0; t < total; t++ {
+				var seq [][]byte
+				for k, v := 0, t; k < depth; k, v = k+1, v/ns {
+					seq = append(seq, []byte(c04SeqSpellings[v%ns]))
+				}
+				for _, pad := range []int{pmin, pmax} {
+					for _, tr := range [][]byte{nil, {0x44, 0x01, 0x05}} {
+						for _, same := range []bool{false, true} {
+							for _, bw := range []bool{false, true} {
+								if !mine() {
+									continue
+								}
+								c04Run1(sh, p5, &c04Case{Kind: kind, Seq: seq, OK: true, Pad: pad, Trailing: tr, SameStream: same, Bytewise: bw})
+							}
+						}
+					}
+				}
+			}
+		}
+	}
+
 	// (2) chunkings
 	p3 := sh.Part("chunkings", "enum")
 	p3.Alphabet = map[string]any{"short_frames": "addr/msg len 1..4 x pad 0..3 x trailing 0/2: all 2^(n-1) splits, with and without zero-length reads", "long_frames": "lens {63,64,2048} x pad {63,64,4096 via pinned padding}: all <=2-cut splits over field boundaries +-1, plus byte-at-a-time"}
